@@ -19,6 +19,11 @@ VERIF = os.path.dirname(os.path.dirname(os.path.abspath(__file__)))
 REPO = os.environ.get("VERIF_REPO", "/repo")
 BUILD = os.path.join(VERIF, ".build")
 LEAN = os.path.join(VERIF, "lean")
+# RUSTFLAGS of EVERY build of the channel harness (harness/chan): the repository's own `--cfg loom` switch routes
+# the migrated channels and hybrid locks onto the scheduler shim, the hook guard additionally puts `fibre::oneshot`
+# on the same primitive seam (verif hook in oneshot/core.rs + mod.rs), so oneshot is really interleaved too.
+# The one place to change it (harness/chan/.cargo/config.toml repeats it for bare `cargo build`).
+CHAN_RUSTFLAGS = "--cfg loom --cfg excsn_fibre_verif"
 ALLOWED_AXIOMS = {"propext", "Classical.choice", "Quot.sound"}
 TRUSTED_BASE = [
     "Lean 4.33.0 kernel",
